@@ -64,7 +64,8 @@ def cases(tier, seed):
     for i in range(12 if tier == 'quick' else 60):
         out.append({'kind': 'kink', 'seed': case_seed('C12', seed, 'kink', i), 'params': {'D': 3 + i % 3}})
     for i, D in enumerate((33, 40) if tier == 'quick' else (32, 33, 36, 40, 48, 64, 65)):
-        out.append({'kind': 'highD', 'seed': case_seed('C12', seed, 'highD', D), 'params': {'D': D}})
+        for rep in range(4):
+            out.append({'kind': 'highD', 'seed': case_seed('C12', seed, 'highD', D, rep), 'params': {'D': D}})
     for i in range(24 if tier == 'quick' else 200):
         out.append({'kind': 'hostile', 'seed': case_seed('C12', seed, 'hostile', i), 'params': {'which': i % 6, 'D': 3 + i % 3}})
     return out
@@ -115,6 +116,9 @@ def _highD(ctx, p, rng):
     D = p['D']
     before = sum(ctx.violation_count.values())
     a = rng.normal(size=(D, 1, 2)); b = rng.normal(size=(D, 1, 2)); b[0] = np.abs(b[0]) + 1.0; a[0] = np.abs(a[0]) + 1.0
+    g = [None, 2.0, 0.5][int(rng.integers(3))]
+    if g:          # coefficients growing / decaying geometrically: the low orders are tiny resp. huge compared with the high ones
+        a = a * (g ** np.arange(D)).reshape(D, 1, 1); b = b * (g ** np.arange(D)).reshape(D, 1, 1)
     X, Y = UTPM(a), UTPM(b)
     for f in (lambda: X * Y, lambda: X / Y, lambda: X ** 3, lambda: algopy.exp(0.1 * X), lambda: algopy.log(Y), lambda: algopy.sqrt(Y), lambda: algopy.dot(X, Y),
               lambda: algopy.square(X), lambda: algopy.sin(0.1 * X), lambda: 1.0 / Y):
